@@ -54,16 +54,14 @@ end
 
 /-! ### hypotheses -/
 
-def NoSpanFlags (flags : List Bool) : Prop := ∀ f ∈ flags, f = false
-
 mutual
 /-- The hypotheses of the conservation theorems, in one recursion: no paragraph or block has a fixed `height`
-(`fixed-height-forgets-overflow`; the container itself may have one), `orphans, widows ≥ 1`, and no child of
-a container has `column-span: all` (`column-span-loses-following-content`). -/
+(`fixed-height-forgets-overflow`; the container itself may have one) and `orphans, widows ≥ 1`.  Nothing is asked
+of the `column-span` flags: spanning children are covered since the repairs b24b457 and d7e3d63. -/
 def Good : ColBox → Prop
   | .para _ _ _ st => st.height = none ∧ 1 ≤ st.orphans ∧ 1 ≤ st.widows
   | .block _ st kids => st.height = none ∧ GoodList kids
-  | .columns _ _ _ flags kids => NoSpanFlags flags ∧ GoodList kids
+  | .columns _ _ _ _ kids => GoodList kids
 def GoodList : List ColBox → Prop
   | [] => True
   | b :: bs => Good b ∧ GoodList bs
@@ -91,36 +89,25 @@ def WellFormedList : List ColBox → Prop
 end
 
 mutual
-/-- No container of the subtree has a `column-span: all` child. -/
-def NoSpan : ColBox → Prop
-  | .para _ _ _ _ => True
-  | .block _ _ kids => NoSpanList kids
-  | .columns _ _ _ flags kids => NoSpanFlags flags ∧ NoSpanList kids
-def NoSpanList : List ColBox → Prop
-  | [] => True
-  | b :: bs => NoSpan b ∧ NoSpanList bs
-end
-
-mutual
-theorem good_of : (b : ColBox) → NoFixedHeight b → WellFormed b → NoSpan b → Good b
+theorem good_of : (b : ColBox) → NoFixedHeight b → WellFormed b → Good b
   | .para _ _ _ _ => by
-    intro h1 h2 _
+    intro h1 h2
     unfold NoFixedHeight at h1; unfold WellFormed at h2; unfold Good
     exact ⟨h1, h2⟩
   | .block _ _ kids => by
-    intro h1 h2 h3
-    unfold NoFixedHeight at h1; unfold WellFormed at h2; unfold NoSpan at h3; unfold Good
-    exact ⟨h1.1, goodList_of kids h1.2 h2 h3⟩
+    intro h1 h2
+    unfold NoFixedHeight at h1; unfold WellFormed at h2; unfold Good
+    exact ⟨h1.1, goodList_of kids h1.2 h2⟩
   | .columns _ _ _ _ kids => by
-    intro h1 h2 h3
-    unfold NoFixedHeight at h1; unfold WellFormed at h2; unfold NoSpan at h3; unfold Good
-    exact ⟨h3.1, goodList_of kids h1 h2 h3.2⟩
-theorem goodList_of : (bs : List ColBox) → NoFixedHeightList bs → WellFormedList bs → NoSpanList bs → GoodList bs
-  | [] => by intro _ _ _; unfold GoodList; trivial
+    intro h1 h2
+    unfold NoFixedHeight at h1; unfold WellFormed at h2; unfold Good
+    exact goodList_of kids h1 h2
+theorem goodList_of : (bs : List ColBox) → NoFixedHeightList bs → WellFormedList bs → GoodList bs
+  | [] => by intro _ _; unfold GoodList; trivial
   | b :: bs => by
-    intro h1 h2 h3
-    unfold NoFixedHeightList at h1; unfold WellFormedList at h2; unfold NoSpanList at h3; unfold GoodList
-    exact ⟨good_of b h1.1 h2.1 h3.1, goodList_of bs h1.2 h2.2 h3.2⟩
+    intro h1 h2
+    unfold NoFixedHeightList at h1; unfold WellFormedList at h2; unfold GoodList
+    exact ⟨good_of b h1.1 h2.1, goodList_of bs h1.2 h2.2⟩
 end
 
 def allColumns : List CFrag → Prop
@@ -131,8 +118,9 @@ def allColumns : List CFrag → Prop
 
 mutual
 /-- `Full f b σ`: `f` is what the layout of `b` resumed at `σ` gives when it runs to the end of `b`.
-Paragraphs and blocks as in stage 1 (structurally); a container fragment holds only column boxes, whose lines
-are the lines of the children from the resume position on. -/
+Paragraphs and blocks as in stage 1 (structurally); a container fragment holds column boxes and spanning
+blocks, whose lines are the lines of the children from the resume position on (`find_earlier_page_break` never
+looks into a container, so nothing more is needed of it). -/
 def Full : CFrag → ColBox → Option Resume → Prop
   | .para id _ st n _ lines, b, σ =>
     match b with
@@ -145,8 +133,7 @@ def Full : CFrag → ColBox → Option Resume → Prop
     | _ => False
   | .cols _ _ _ _ fs, b, σ =>
     match b with
-    | .columns _ _ _ _ kids =>
-      allColumns fs ∧ fragLinesList fs = linesFromKids kids (skipIdxOf σ) (subSkipOf σ)
+    | .columns _ _ _ _ kids => fragLinesList fs = linesFromKids kids (skipIdxOf σ) (subSkipOf σ)
     | _ => False
   | .column _ _ _ _ _, _, _ => False
 def FullFrom : List CFrag → List ColBox → Nat → Option Resume → Prop
